@@ -226,6 +226,7 @@ struct Established : Scenario
 		add("S.cancel", 1, [this]() { if (srv) srv->cancel(); });
 		add("S.close", 1, [this]() { error_code ec; if (srv) srv->close(ec); });
 		add("S.destroy", 1, [this]() { if (!accept_done && !dead[2]) return; /* the peer socket of an outstanding accept must outlive it */ srv.reset(); dead[1] = true; });
+		if (kind == 1) add("C.async_write_some(supersede)", 0, [this]() { if (cli && cli->is_open() && cli->m_channel && !cli->m_connect_handler) cli->async_write_some(asio::buffer("zz", 2), h_ec_n(rec("C.write(superseding)", 0))); });
 		if (kind == 0) add("S.async_read_some(supersede)", 1, [this]() { if (srv && srv->is_open()) { rb2.resize(100); srv->async_read_some(asio::buffer(rb2), h_ec_n(rec("S.read(superseding)", 1))); } });
 		if (kind == 2) add("S.async_read_some(supersedes the wait) + peer writes", 1, [this]() { if (srv && srv->is_open() && cli && cli->is_open() && accept_done) { rb2.resize(100); srv->async_read_some(asio::buffer(rb2), h_ec_n(rec("S.read(after wait)", 1))); cli->async_write_some(asio::buffer("late", 4), h_ec_n(rec("C.write(late)", 0))); } });
 		if (kind == 0) add("S.async_wait(supersedes the read) + peer writes", 1, [this]() { if (srv && srv->is_open() && cli && cli->is_open() && accept_done) { srv->async_wait(ip::tcp::socket::wait_read, h_ec(rec("S.wait_read(after read)", 1))); cli->async_write_some(asio::buffer("late", 4), h_ec_n(rec("C.write(late)", 0))); } });
@@ -274,6 +275,7 @@ struct UdpOps : Scenario
 		if (kind == 2) add("B.async_receive(supersedes the wait) + datagram", 1, [this]() { if (b && b->is_open()) { b->async_receive(asio::buffer(rb), h_ec_n(rec("B.receive(after wait)", 1))); error_code e; if (a && a->is_open()) a->send_to(asio::buffer("late", 4), ip::udp::endpoint(addr("10.0.1.1"), 5000), 0, e); } });
 		if (kind == 0) add("B.async_wait(supersedes the receive) + datagram", 1, [this]() { if (b && b->is_open()) { b->async_wait(ip::udp::socket::wait_read, h_ec(rec("B.wait_read(after receive)", 1))); error_code e; if (a && a->is_open()) a->send_to(asio::buffer("late", 4), ip::udp::endpoint(addr("10.0.1.1"), 5000), 0, e); } });
 		if (kind == 2) add("B.async_wait(supersede)", 1, [this]() { if (b && b->is_open()) b->async_wait(ip::udp::socket::wait_read, h_ec(rec("B.wait_read(superseding)", 1))); });
+		if (kind == 3) add("A.async_wait(wait_write)(supersede)", 0, [this]() { if (a && a->is_open()) a->async_wait(ip::udp::socket::wait_write, h_ec(rec("A.wait_write(superseding)", 0))); });
 		if (kind == 3) add("A.send_to(while waiting)", 0, [this]() { error_code e; if (a && a->is_open()) a->send_to(asio::buffer("x", 1), ip::udp::endpoint(addr("10.0.1.1"), 5000), 0, e); });
 		if (kind != 3) add("B.move-construct, destroy source", 1, [this]() { if (!b || !b->is_open() || b->m_recv_handler || b->m_wait_recv_handler) return; /* only when nothing is outstanding */ std::unique_ptr<ip::udp::socket> n2(new ip::udp::socket(std::move(*b))); b = std::move(n2); });
 	}
@@ -297,6 +299,7 @@ struct Resolve : Scenario
 		if (kind == 2) { r->async_resolve("n10", "80", h_res<ip::tcp::resolver::results_type>(rec("R.resolve(n10)", 0))); r->async_resolve("n50", "81", h_res<ip::tcp::resolver::results_type>(rec("R.resolve(n50)", 0)));
 			ur->async_resolve("n50", "82", h_res<ip::udp::resolver::results_type>(rec("UR.resolve(n50)", 1))); }
 		add("R.cancel", 0, [this]() { if (r) r->cancel(); });
+		add("UR.cancel", 1, [this]() { if (ur) ur->cancel(); });
 		add("R.destroy", 0, [this]() { r.reset(); dead[0] = true; });
 		if (kind == 2) add("UR.destroy", 1, [this]() { ur.reset(); dead[1] = true; });
 	}
